@@ -16,18 +16,23 @@ SERIAL = os.environ.get("VERIF_TIER") == "quick"
 TECHNIQUE = ("property-based testing (Hypothesis): the CQL literal cqlengine sends for a column value (session encoder applied to "
              "Column.to_database(value)) is read with an independent model of Cassandra's literal conversion for the column's CQL "
              "type and compared with the core driver's prepared-statement encoding of the original Python value decoded by the "
-             "independent codec spec.values; datetimes additionally against the exact instant computed with integer arithmetic")
+             "independent codec spec.values; datetimes additionally against the exact instant computed with integer arithmetic, "
+             "and a datetime given to a date column additionally against its own calendar day (from the generated ordinal)")
 RULE = ("One case = (column description, value description).  Columns: every cqlengine scalar column class (Text, Ascii, Blob, Inet, "
         "Integer, TinyInt, SmallInt, BigInt, VarInt, DateTime, Date, Time, Duration, UUID, TimeUUID, Boolean, Float, Double, Decimal), "
         "List/Set/Map of them (nested once more for list/map values), Tuple and UserDefinedType columns.  Values are built by "
         "construction per column: ints at the width boundaries, text with quotes/non-BMP characters, floats incl. 17-digit/"
-        "sub-normal/non-finite, decimals with up to 40 digits and exponents to +-400, dates over years 1-9999 and util.Date over the "
-        "whole 32-bit range, times with nanoseconds, datetimes over years 1-9999 with arbitrary microseconds, naive or aware in "
+        "sub-normal/non-finite, decimals with up to 40 digits (digit counts around and above 28, the default decimal context precision, weighted) and "
+        "exponents to +-400, dates over years 1-9999 and util.Date over the "
+        "whole 32-bit range, date columns also given datetimes (naive or aware in every zone kind below, any time of day, weighted to "
+        "the hours after and before midnight, top level and as list element / map value / tuple member; part 'dates' generates date "
+        "columns only), times with nanoseconds, datetimes over years 1-9999 with arbitrary microseconds, naive or aware in "
         "hand-built fixed-offset zones, hand-built DST-rule zones (US / EU / southern rule; days of the switch and wall-clock hours "
         "around it are weighted), datetime.timezone, zoneinfo and pytz zones (localize()).  Non-trivial: a DateTime whose zone offset "
         "at that instant differs from the zone's offset at the epoch, or with microseconds that are not whole milliseconds, or in a "
         "year < 1900 or > 2100; for other columns a collection/tuple/UDT, or a boundary class value (|int| >= 2^31, float with > 15 "
-        "significant digits or non-finite, any decimal, date outside 1900-2100, time with sub-microsecond part, duration, text "
+        "significant digits or non-finite, any decimal, date outside 1900-2100, an aware datetime given to a date column whose UTC calendar day is not its own "
+        "calendar day (time of day within |UTC offset| of midnight), time with sub-microsecond part, duration, text "
         "with a quote or non-ASCII character, IPv6).")
 ASSUMPTIONS = [
     "spec/cqllex.py + spec/cqlterm.py stand for Cassandra's lexer, term grammar and literal conversion (server time zone UTC)",
@@ -37,6 +42,9 @@ ASSUMPTIONS = [
     "literal) exactly as Session.execute substitutes simple-statement parameters (cassandra.query.bind_params)",
     "valid values: the documented Python type of each column (a float given to a Decimal column, a str given to a UUID column and "
     "non-bool values for Boolean are conveniences cqlengine converts differently from the core path by design and are not generated)",
+    "a datetime given to a date column denotes its own (wall-clock) calendar day, as cassandra.util.Date(value) and therefore the core "
+    "encoding take it (value.timetuple()); the value reaches Column.to_database un-normalised as it does on attribute assignment + "
+    "save()/update(), queryset update() and filter values (Model(...)/create() kwargs pass through to_python first and are not modelled)",
     "zone offsets of zoneinfo/pytz zones are taken from the library (value.utcoffset()); hand-built zones from their rule",
 ]
 
@@ -100,8 +108,12 @@ def s_double():
 
 
 def s_decimal():
+    # 28 significant digits is the precision of the default decimal context: digit counts around and above it are a class of their own
     digits = st.one_of(st.integers(0, 10 ** 6), st.integers(10 ** 15, 10 ** 18), st.integers(10 ** 25, 10 ** 40),
-                       st.sampled_from([0, 1, 10, 100, 11, 110, 1234567890123456789]))
+                       st.integers(26, 40).flatmap(lambda n: st.integers(10 ** (n - 1), 10 ** n - 1)),
+                       st.text(alphabet="0123456789", min_size=26, max_size=40).map(int),
+                       st.sampled_from([0, 1, 10, 100, 11, 110, 1234567890123456789, 10 ** 28 - 1, 10 ** 28 + 1, 10 ** 29 - 1,
+                                        12345678901234567890123456789, 10 ** 39 + 7]))
     exp = st.one_of(st.integers(-6, 6), st.integers(-30, 30), st.sampled_from([-400, -325, -20, 0, 20, 308, 309, 400]))
     dec = st.builds(lambda s, dg, e: {"dec": "%s%dE%d" % ("-" if s else "", dg, e)}, st.booleans(), digits, exp)
     plain = st.builds(lambda s, a, b: {"dec": "%s%d.%s" % ("-" if s else "", a, b)}, st.booleans(), st.integers(0, 10 ** 9),
@@ -171,7 +183,17 @@ def s_date():
                         st.sampled_from([1, 365, 366, 364877, 364878, _MAX_ORD, _EPOCH_ORD]))
     ext = st.one_of(st.integers(-2 ** 31, 2 ** 31 - 1), st.integers(-800000, 3000000),
                     st.sampled_from([-2 ** 31, 2 ** 31 - 1, 0, -1, -719162, -719163, 2932896, 2932897]))
-    return _pick([(5, ordinal.map(lambda o: {"ord": o})), (4, ext.map(lambda n: {"days": n})), (1, ordinal.map(lambda o: {"dt": o}))])
+    return _pick([(5, ordinal.map(lambda o: {"ord": o})), (4, ext.map(lambda n: {"days": n})), (1, ordinal.map(lambda o: {"dt": o})),
+                  (5, s_date_from_datetime())])
+
+
+def s_date_from_datetime():
+    """a datetime (naive or aware in any of the zones of s_tz, any time of day) given to a `date` column: {"dtv": datetime description}.
+    The time of day of s_datetime is weighted towards the hours after midnight; half of the cases mirror it to the hours before
+    midnight, so that aware values whose UTC calendar day is the previous / the next day of their own calendar day are both common."""
+    dt = s_datetime().filter(lambda d: "date" not in d)
+    # (the mirror flag is drawn first: a choice drawn after a large sub-strategy comes out skewed towards its first alternative)
+    return st.builds(lambda late, d: {"dtv": dict(d, sod=86399 - d["sod"]) if late else d}, st.booleans(), dt)
 
 
 def s_time():
@@ -268,6 +290,8 @@ def _hkey(kind, v):
     if kind == "Time":
         return ("T", v["ns"])
     if kind == "Date":
+        if "dtv" in v:
+            return ("D", v["dtv"]["ord"] - _EPOCH_ORD)
         return ("D", v.get("days", v.get("ord", v.get("dt", 0)) - _EPOCH_ORD))
     return (kind, json.dumps(v, sort_keys=True))
 
@@ -289,7 +313,7 @@ def _key_value(kind):
     if kind == "Double":
         return s_double().filter(lambda f: f != "nan")
     if kind == "Date":
-        return s_date().filter(lambda d: "dt" not in d)
+        return s_date().filter(lambda d: "dt" not in d and "dtv" not in d)
     if kind == "Time":
         return s_time().filter(lambda d: d["form"] != "int")
     if kind == "Inet":
@@ -375,6 +399,15 @@ def s_case():
 
 def s_datetime_case():
     return s_datetime().map(lambda v: {"col": {"c": "DateTime"}, "v": v})
+
+
+def s_date_case():
+    """Date columns only: top level, or as list element / tuple member / map value"""
+    top = s_date().map(lambda v: {"col": {"c": "Date"}, "v": v})
+    lst = st.lists(s_date(), min_size=1, max_size=3).map(lambda vs: {"col": {"c": "List", "of": {"c": "Date"}}, "v": vs})
+    mp = st.tuples(s_int(32), s_date()).map(lambda kv: {"col": {"c": "Map", "k": {"c": "Integer"}, "v": {"c": "Date"}}, "v": [[kv[0], kv[1]]]})
+    tup = st.tuples(s_int(32), s_date()).map(lambda kv: {"col": {"c": "Tuple", "of": [{"c": "Integer"}, {"c": "Date"}]}, "v": [kv[0], kv[1]]})
+    return _pick([(8, top), (2, lst), (1, mp), (1, tup)])
 
 
 # ---------------------------------------------------------------------------------------------------------
@@ -467,6 +500,17 @@ def _dt_nontrivial(d, pyval):
     return False
 
 
+def _date_day_shift(v):
+    """for a datetime given to a date column: (UTC calendar day) - (the datetime's own calendar day), i.e. -1 / 0 / +1; the date
+    stored is the datetime's own calendar day (cassandra.util.Date takes value.timetuple()), not the day of the instant in UTC"""
+    from checks import _cqle
+    d = v["dtv"]
+    if d.get("tz") is None:
+        return 0
+    off = _offset_seconds(d, _cqle.build_datetime(d))
+    return (d["sod"] - off) // 86400
+
+
 def _nontrivial_leaf(kind, v):
     if kind in ("Integer", "BigInt", "VarInt"):
         return abs(v) >= 2 ** 31 - 1
@@ -477,6 +521,9 @@ def _nontrivial_leaf(kind, v):
     if kind == "Date":
         if "days" in v:
             return True
+        if "dtv" in v:
+            y = datetime.date.fromordinal(v["dtv"]["ord"]).year
+            return y < 1900 or y > 2100 or _date_day_shift(v) != 0
         y = datetime.date.fromordinal(v.get("ord", v.get("dt"))).year
         return y < 1900 or y > 2100
     if kind == "Time":
@@ -646,6 +693,20 @@ def interpret(case, ctx):
                         ctx.label("dt:offset-differs-from-epoch-offset")
                 if "date" not in v and v["us"] % 1000:
                     ctx.label("dt:sub-ms")
+            elif kind == "Date" and "dtv" in v:
+                d = v["dtv"]
+                shift = _date_day_shift(v)
+                # (the evidence keeps the 60 most frequent labels: few, coarse labels here)
+                ctx.label("date:from-datetime:" + ("naive" if d.get("tz") is None else "aware"))
+                if shift:
+                    ctx.label("date:from-datetime:utc-day-%s" % ("before" if shift < 0 else "after"))
+                if _nontrivial_leaf(kind, v):
+                    nt = True
+            elif kind == "Decimal":
+                nt = True
+                digs = (v["dec"].split("E")[0] if "dec" in v else str(v["int"])).replace("-", "").replace(".", "").lstrip("0")
+                if len(digs.rstrip("0")) > 28:
+                    ctx.label("decimal:>28-significant-digits")
             elif _nontrivial_leaf(kind, v):
                 nt = True
         ctx.nontrivial(nt)
@@ -683,6 +744,16 @@ def interpret(case, ctx):
                 ctx.fail(["C36.instant", dt_cause], "%r is the instant %d us since the epoch, cqlengine stores %r ms (difference %s ms)" % (
                     value, us, got, (got - us // 1000) if isinstance(got, int) else "?"))
 
+        # ---- the day of a datetime given to a date column, independently of the core path: its own calendar day
+        date_cause = None
+        if col_d["c"] == "Date" and "dtv" in val_d:
+            want_day = val_d["dtv"]["ord"] - _EPOCH_ORD
+            if got != want_day:
+                shift = _date_day_shift(val_d)
+                date_cause = "utc-day" if shift and isinstance(got, int) and got == want_day + shift else "other"
+                ctx.fail(["C36.day", date_cause], "%r has the calendar day %d (days since the epoch), cqlengine sends %r which reads as %r" % (
+                    value, want_day, literal[:80], got))
+
         # ---- equality with the core prepared encoding of the original value
         try:
             wire = _drv.build_type(tree, "direct").to_binary(core_value, 4)
@@ -698,6 +769,8 @@ def interpret(case, ctx):
                 key = ["C36.value", "timestamp", "date-object"]
             elif leaf == "timestamp" and isinstance(a, int) and isinstance(b, int):
                 key = ["C36.value", "timestamp", _ts_cause(b - a)]
+            elif date_cause is not None:
+                key = ["C36.value", "date", date_cause]
             else:
                 key = ["C36.value", leaf]
             ctx.fail(key, "%s value %r: cqlengine sends %r which reads as %s, the prepared path sends %s" % (
@@ -716,4 +789,5 @@ def parts(tier):
     return [
         hyp_part("values", s_case, interpret, tier, quick=1500, thorough=12000),
         hyp_part("datetimes", s_datetime_case, interpret, tier, quick=1500, thorough=10000),
+        hyp_part("dates", s_date_case, interpret, tier, quick=500, thorough=6000),
     ]
